@@ -50,6 +50,37 @@ CLAIMS = {
         note='convergence of chandrupatla within the iteration cap is partial (no proved rate); reversed brackets accepted by '
              'chandrupatla is a recorded finding; exp-based families compared within tolerance',
         tech='Lean 4 proof over a hand-written model + bit-exact correspondence on a shared spec language', ref='5 C18'),
+    'C02': dict(
+        text='Lean 4 theorems over R for any number of rows/columns: the executable Pearson model (pandas one-pass Welford, '
+             'NaN as none) equals the textbook coefficient, symmetry, unit diagonal for non-constant score columns, range, '
+             'PSD (Gram matrix), constant columns -> zero row/column and still PSD, ridge R+eps*I symmetric/PD with the stated '
+             'diagonal, labels, entry = Pearson of the normal scores; clip bounds, ridge constant and threshold regenerated '
+             'from the source; tied bit-for-bit to pandas corr and entrywise to model.correlation / to_dict.',
+        note='np.linalg.cond, scipy norm.ppf and the marginal CDFs are external symbols; finiteness and that sampling/density '
+             'work after regularisation are checked on the real code only; degenerate marginal fits are a recorded finding',
+        tech='Lean 4 proof (Mathlib matrices) over a hand model + generated constants, correspondence with pandas/real fit',
+        ref='5 C02'),
+    'C12': dict(
+        text='Lean 4 theorems about a model of conditional sampling: conditioned columns are replicate n value in training '
+             'order, draws are looked up by label, exact partition into the four blocks for every proper non-empty subset, '
+             'label alignment of the normal scores (full statement for the repaired code, iff-characterisation and '
+             'counter-example for the former behaviour), Series container accepted, Schur complement symmetric and PSD '
+             '(Matrix.PosDef.fromBlocks22), conditional mean/covariance formulas; tied to _get_conditional_distribution and to '
+             'sample under replayed multivariate_normal draws.',
+        note='that N(mu_bar, Sigma_bar) is the conditional law of a partitioned normal is the classical theorem (partial: '
+             'algebraic core proved); np.linalg.inv is a parameter with hypothesis; statistical bands only in deep search',
+        tech='Lean 4 proof over a hand-written model with as-found/repaired variants + correspondence on recorded draws',
+        ref='5 C12'),
+    'C15': dict(
+        text='Lean 4 theorems (core Lean, every finite history over any number of models): global stream preserved by seeded '
+             'sampling / set_random_state / raising calls, per-model stream a function of its seed and own call sequence '
+             '(independent of interleaving and prior global state), successive calls consume consecutive segments, '
+             'exception safety of the context manager, unseeded sampling uses the global stream, dataset generators '
+             'deterministic and global-preserving; soundness of the free-term model used by the driver; tied by comparing '
+             'predicted equalities/separations of state and output digests on random histories over all sampler classes.',
+        note='MT19937 get/set_state exactness and stream quality are trusted; the decorator table is introspected by the '
+             'harness; the former Univariate wrapper defect is kept as a counter-example theorem about the as-found table',
+        tech='Lean 4 proof over an abstract generator-state machine + digest-pattern correspondence', ref='5 C15'),
 }
 
 
